@@ -596,3 +596,83 @@ theorem schemaMerge_vmok2 (anc ours theirs merged : Schema) (fl : Flags)
     fun c hc => ⟨v.s1 c hc, fun hb => schemaMerge_base_col anc ours theirs merged fl h c hc hb⟩, rfl⟩
 
 end DoltVerif.RowMerge
+
+namespace DoltVerif.RowMerge
+
+/-! ### a side that needs no rewrite already has the result layout -/
+
+theorem isIdentityAux_get (k : Nat) (m : List (Option Nat)) (h : isIdentityAux k m = true) (i : Nat)
+    (hi : i < m.length) : m[i]? = some (some (k + i)) := by
+  induction m generalizing k i with
+  | nil => simp at hi
+  | cons x xs ih =>
+    simp only [isIdentityAux, Bool.and_eq_true, beq_iff_eq] at h
+    cases i with
+    | zero => simp [h.1]
+    | succ j =>
+      have := ih (k + 1) h.2 j (by simpa using hi)
+      simp only [List.getElem?_cons_succ, this]
+      congr 2; omega
+
+/-- if the mapping result → side is the identity and both have the same number of columns, mapping a
+well-typed row of the side into the result schema changes nothing -/
+theorem projRow_of_identity (msch side : Schema) (hid : isIdentity (mapping msch side) = true)
+    (hlen : side.length = msch.length) (row : Row) (hrow : rowOk side row = true) :
+    projRow msch side row = row := by
+  have hl := rowOk_length side row hrow
+  apply List.ext_getElem?
+  intro i
+  by_cases hi : i < msch.length
+  · have hm := isIdentityAux_get 0 (mapping msch side) hid i (by simpa [mapping] using hi)
+    simp only [mapping_get, List.getElem?_eq_getElem hi, Option.map_some, Nat.zero_add] at hm
+    have hf : findCol side (msch[i]).id = some i := by simpa using hm
+    have hr : i < row.length := by omega
+    simp [projRow, List.getElem?_eq_getElem hi, cellOf, hf, cellAt, List.getElem?_eq_getElem hr]
+  · have h1 : (projRow msch side row).length ≤ i := by simp [projRow]; omega
+    have h2 : row.length ≤ i := by omega
+    simp [List.getElem?_eq_none h1, List.getElem?_eq_none h2]
+
+theorem projRow_self (s : Schema) (hd : idsDistinct s = true) (row : Row) (hrow : rowOk s row = true) :
+    projRow s s row = row := by
+  have hl := rowOk_length s row hrow
+  apply List.ext_getElem?
+  intro i
+  by_cases hi : i < s.length
+  · have hf := findCol_self s hd i s[i] (List.getElem?_eq_getElem hi)
+    have hr : i < row.length := by omega
+    simp [projRow, List.getElem?_eq_getElem hi, cellOf, hf, cellAt, List.getElem?_eq_getElem hr]
+  · have h1 : (projRow s s row).length ≤ i := by simp [projRow]; omega
+    have h2 : row.length ≤ i := by omega
+    simp [List.getElem?_eq_none h1, List.getElem?_eq_none h2]
+
+/-- **hidL / hidR derived from the schema merge** -/
+theorem schemaMerge_noRewrite (anc ours theirs msch : Schema) (fl : Flags)
+    (ho : idsDistinct ours = true) (ht : idsDistinct theirs = true)
+    (h : schemaMerge anc ours theirs = .ok (msch, fl)) :
+    (fl.leftNeedsRewrite = false → ∀ row, rowOk ours row = true → projRow msch ours row = row) ∧
+    (fl.rightNeedsRewrite = false → ∀ row, rowOk theirs row = true → projRow msch theirs row = row) := by
+  unfold schemaMerge at h
+  by_cases he : anc = ours ∧ anc = theirs
+  · obtain ⟨e1, e2⟩ := he
+    subst e1; subst e2
+    simp [pure, Except.pure] at h
+    obtain ⟨e3, _⟩ := h
+    subst e3
+    exact ⟨fun _ row hr => projRow_self _ ho row hr, fun _ row hr => projRow_self _ ht row hr⟩
+  · simp only [he, if_false, bind, Except.bind, pure, Except.pure] at h
+    cases h1 : mergeColumns anc ours theirs with
+    | error e => simp [h1] at h
+    | ok p =>
+      obtain ⟨m, f⟩ := p
+      simp [h1] at h
+      obtain ⟨e1, e2⟩ := h
+      subst e1; subst e2
+      constructor
+      · intro hf row hr
+        simp only [Bool.or_eq_false_iff, Bool.not_eq_false', bne_eq_false_iff_eq] at hf
+        exact projRow_of_identity m ours hf.2.1 (by simpa using congrArg List.length hf.2.2) row hr
+      · intro hf row hr
+        simp only [Bool.or_eq_false_iff, Bool.not_eq_false', bne_eq_false_iff_eq] at hf
+        exact projRow_of_identity m theirs hf.2.1 (by simpa using congrArg List.length hf.2.2) row hr
+
+end DoltVerif.RowMerge
